@@ -114,7 +114,10 @@ pub struct Signal<T: 'static>(pub(crate) ReadSignal<T>);
 #[cfg_attr(debug_assertions, track_caller)]
 pub fn create_signal<T>(value: T) -> Signal<T> {
     let signal = create_empty_signal();
-    signal.get_mut().value = Some(Box::new(value));
+    // The signal is not alive if it was created inside a scope that is already disposed.
+    if let Some(node) = signal.root.nodes.borrow_mut().get_mut(signal.id) {
+        node.value = Some(Box::new(value));
+    }
     signal
 }
 
@@ -139,7 +142,15 @@ pub(crate) fn create_empty_signal<T>() -> Signal<T> {
     // Add the signal to the parent's `children` list.
     let current_node = root.current_node.get();
     if !current_node.is_null() {
-        root.nodes.borrow_mut()[current_node].children.push(id);
+        let mut nodes = root.nodes.borrow_mut();
+        match nodes.get_mut(current_node) {
+            Some(owner) => owner.children.push(id),
+            // The current scope has already been disposed (e.g. by the running callback itself):
+            // nothing can own the new node, so it is disposed right away.
+            None => {
+                nodes.remove(id);
+            }
+        }
     }
 
     Signal(ReadSignal {
